@@ -202,3 +202,21 @@ def hang_verdict(data: bytes, depth_limit: int | None, budget_events: int = 200_
         import shutil
 
         shutil.rmtree(d, ignore_errors=True)
+
+
+# ---------------------------------------------------------------------------------------------
+# converse checks: "this blob at [a,b) must be reported as one node"
+# ---------------------------------------------------------------------------------------------
+def locate(root, a, b, typ=None, obf=None, value=None):
+    """look for a node with absolute span [a,b) (through undecoded contexts) and the given fields.
+    Returns ("found", node) | ("shadowed", description) | ("missing", nodes overlapping the span)"""
+    nodes = abs_nodes(root)
+    same_span = [n for (s, e, n) in nodes if (s, e) == (a, b)]
+    for n in same_span:
+        if (typ is None or n.type == typ) and (obf is None or n.obfuscation == obf) and (value is None or n.value == value):
+            return "found", n
+    for s, e, n in nodes:
+        if s <= a and b <= e and (s, e) != (a, b) and n.value.lower() != n.original.lower():
+            return "shadowed", (n.type, n.obfuscation, s, e)
+    over = [(n.type, n.obfuscation, s, e, n.value[:40]) for (s, e, n) in nodes if s < b and a < e]
+    return "missing", over[:8]
